@@ -287,3 +287,48 @@ func HarnessC15ContainerTruthiness() {
 	verifrt.Assert(NewByteSlice([]byte(s)).IsTruthy() == (n != 0), "byte_slice")
 	verifrt.Reach("done")
 }
+
+// HarnessC15SortStableLong: stability on inputs longer than the insertion-sort
+// threshold of Go's sort package (12): pairs of equal keys that are
+// distinguishable (Int k vs Float k) keep their order; two symbolic elements
+// move through every position.
+func HarnessC15SortStableLong() {
+	n := 16
+	if verifrt.Thorough() {
+		n = 28
+	}
+	items := make([]Object, 0, n+2)
+	for i := 0; i < n; i++ {
+		k := int64((i * 7 % n) / 2) // scrambled keys, each twice
+		if i%2 == 0 {
+			items = append(items, &Int{value: k})
+		} else {
+			items = append(items, NewFloat(float64(k)))
+		}
+	}
+	for j := 0; j < 2; j++ {
+		v := verifrt.Int64()
+		verifrt.Assume(verifrt.And(v >= -1, v <= int64(n/2)))
+		pos := verifrt.Choose(3) * (n / 3)
+		items = append(items[:pos], append([]Object{&Int{value: v}}, items[pos:]...)...)
+	}
+	orig := append([]Object{}, items...)
+	err := Sort(items)
+	verifrt.Assert(err == nil, "sort-succeeds")
+	pos := func(o Object) int {
+		for j, x := range orig {
+			if x == o {
+				return j
+			}
+		}
+		return -1
+	}
+	for i := 0; i+1 < len(items); i++ {
+		gt, _ := cmpOp(op.GreaterThan, items[i], items[i+1])
+		verifrt.Assert(!gt, "no-inversion")
+		if eqv(items[i], items[i+1]) {
+			verifrt.Assert(pos(items[i]) < pos(items[i+1]), "stable-on-long-input")
+		}
+	}
+	verifrt.Reach("done")
+}
